@@ -3,7 +3,7 @@ from __future__ import annotations
 
 from .. import decoders, render, sym
 from ..decoders import classify, fmt_atoms, EVENTS
-from ..model import Repo
+from ..model import AnalysisError, Repo
 from ..report import Run
 from ..sym import T, const
 
@@ -70,8 +70,7 @@ def analyse(D, e, run: Run) -> bool:
     d = D.decode(e)
     mod, scope = e.module.name, e.func_name
     if d.segs is None:
-        run.ob("R1", mod, scope, e.key, False, f"rendering could not be derived: {d.problems[:2]}", line=e.func.lineno)
-        return False
+        raise AnalysisError(f"{e.key} ({scope}): rendering could not be derived: {d.problems[:2]}")
     try:
         vs = render.variants(d.segs)
     except ValueError as ex:
@@ -91,6 +90,27 @@ def analyse(D, e, run: Run) -> bool:
                 for a in classify(t):
                     if a[0].startswith("END") or a[0].startswith("EV"):
                         bad.add((p, a))
+    # ... nor may the END record decide WHICH alternative of the call part is shown: two alternatives that differ only in
+    # the value of one choice and have different call parts make that choice part of the call part's inputs
+    def call_part(sh):
+        return (sh.name, tuple(tuple(pos) for pos in sh.positions), sh.closed)
+    def end_dep(c):
+        return any(a[0].startswith("END") or a[0].startswith("EV") for a in classify(c))
+    for i, (ch1, sh1, _) in enumerate(shapes):
+        free1 = {k: v for k, v in ch1.items() if not end_dep(k)}
+        for ch2, sh2, _ in shapes[i + 1:]:
+            if call_part(sh1) == call_part(sh2):
+                continue
+            free2 = {k: v for k, v in ch2.items() if not end_dep(k)}
+            if any(free1[k] != free2[k] for k in set(free1) & set(free2)):
+                continue            # told apart by something other than the END record
+            # the same START words and nested records can give either call part: only END-dependent choices differ
+            diff = [p for p, (x, y) in enumerate(zip(sh1.positions, sh2.positions)) if x != y] or [0]
+            for c in set(ch1) | set(ch2):
+                if end_dep(c) and ch1.get(c) != ch2.get(c):
+                    for a in classify(c):
+                        if a[0].startswith("END") or a[0].startswith("EV"):
+                            bad.add((diff[0], a))
     run.ob("R4", mod, scope, f"{e.key}:call-part", not bad,
            "" if not bad else f"the call part depends on the END record / other records: "
                               f"{sorted((p, fmt_atoms({a})[0]) for p, a in bad)}",
